@@ -32,13 +32,78 @@ def c16(tier, seed):
     return st
 
 
+STORE_CORE = dict(MaxNodes=12, MaxArr=3, MaxHandles=3, Names="<-NamesCore", Idxs="<-IdxsCore", SetVals="<-ValsCore",
+                  Frags="<-NoFrags", MergePols="<-PolsTwo", SetChildNames="<-NoNames", SweepAddrs="<-AddrsCore",
+                  Roots2="<-RootB", WithEmbed=False, WithParent=False)
+STORE_MERGE = dict(MaxNodes=14, MaxArr=3, MaxHandles=3, Names="<-NamesMerge", Idxs="<-IdxsMerge", SetVals="<-ValsCore",
+                   Frags="<-FragsMerge", MergePols="<-PolsAll", SetChildNames="<-SCNames", SweepAddrs="<-AddrsMerge",
+                   Roots2="<-RootB", WithEmbed=True, WithParent=True)
+CTX_DEVS = ["DetachKeepsCtx", "SetCtxOnlyIfEmpty", "CopyKeepsStoredFld"]
+
+
+def store_stages(tier, comps, trace_comps, mc_inv, mc_props, refute, only_devs, mc_universe="core", gen_core=True,
+                 merge_depth=(2, 3)):
+    q = tier == "quick"
+    core = dict(STORE_CORE, MaxOps=3 if q else 4)
+    mrg = dict(STORE_MERGE, MaxOps=merge_depth[0] if q else merge_depth[1])
+    mcu = dict(core if mc_universe == "core" else dict(STORE_MERGE, MaxOps=2 if q else 3), TreeOnly=True)
+    st = [MC("MC_Store", mcu, invariants=mc_inv, properties=mc_props, spec="Spec", label="MC_Store/ideal")]
+    for d, inv in refute:
+        st.append(MC("MC_Store", mcu, invariants=[i for i in inv if not i.endswith("Prop")],
+                     properties=[i for i in inv if i.endswith("Prop")], spec="Spec", dev={d}, expect_violation=True,
+                     label="MC_Store/refute-" + d))
+    if gen_core:
+        st.append(GEN("Gen_Store", core, "store", replay_args=["--components", comps], label="Gen_Store/core",
+                      only_devs=only_devs, min_cases=20000))
+    st += [
+        GEN("Gen_Store", mrg, "store", replay_args=["--components", comps], label="Gen_Store/merge",
+            only_devs=only_devs, min_cases=3000),
+        TRACE("Trace_Store", "store", consts=dict(MaxNodes=1000, MaxArr=1000, Components="<-" + trace_comps),
+              drive_args=["--components", comps, "--steps", "25"], n=120 if q else 1500, only_devs=only_devs,
+              label="Trace_Store/sessions"),
+    ]
+    return st
+
+
+def c12(tier, seed):
+    return store_stages(tier, "obs,sweep,count,kind,at", "CompsC12",
+                        ["ReadYourWrite", "HasIffGet", "RemoveRemoves", "NoPanic"], ["FrameProp", "ShiftPadProp"],
+                        [("NegativeIndexPanics", ["NoPanic"])], only_devs=[])
+
+
+def c15(tier, seed):
+    return store_stages(tier, "obs,path,flat,cmp", "CompsC15",
+                        ["CtxOK", "LinksTrue", "FlatExact", "CompareOK"], [],
+                        [("DetachKeepsCtx", ["LinksTrue"]), ("DelAtNoRenumber", ["CtxOK"])], only_devs=None)
+
+
+def c10(tier, seed):
+    st = store_stages(tier, "obs,at,path", "CompsC10", ["NoSharing"], ["SourceUntouchedProp"],
+                      [("EmbedReparentsSource", ["SourceUntouchedProp"])], only_devs=None, mc_universe="merge",
+                      gen_core=False, merge_depth=(3, 4))
+    q = tier == "quick"
+    u = "<-U_Tiny" if q else "<-U_Quick"
+    st.append(GEN("Gen_Merge", dict(UA=u, UB=u, PolSet="<-Pols", FosSet="<-FosNone"), "merge",
+                  replay_args=["--reprs", "cfg", "--check-source"], label="Gen_Merge/source-untouched", min_cases=1000))
+    return st
+
+
 ASSUME_COMMON = [
     "the public-API observation (Unpack into map and slice, canonicalised) reads the abstract state faithfully",
     "TLC, the JVM, the Go toolchain and runtime",
     "bounded universes: exhaustive only inside the stated bounds; beyond them only the seeded random traces",
 ]
 
+STORE_RULE = ("Gen_Store: every transition of the heap/handle state machine to depth %s over the name/index/fragment "
+              "universes of StoreUniverses.tla (shortest history + operation + expected result and projection), replayed through "
+              "the public API; Trace_Store: seeded random sessions (25 operations, up to 5 handles, merges with all policies, "
+              "embedded configs, SetChild, Parent) recorded from the real code and validated by TLC. "
+              "non-trivial = the operation changed the state or returned an error; distinct by (history, operation)")
+
 CHECKS = {
+    "C12": dict(stages=c12, family="store", rule=STORE_RULE % "3 (quick) / 4 (thorough)", assumptions=ASSUME_COMMON),
+    "C15": dict(stages=c15, family="store", rule=STORE_RULE % "3 (quick) / 4 (thorough)", assumptions=ASSUME_COMMON),
+    "C10": dict(stages=c10, family="store", rule=STORE_RULE % "2-3 (quick) / 3-4 (thorough)", assumptions=ASSUME_COMMON),
     "C01": dict(stages=c01, family="merge",
                 rule="Gen_Merge: every (destination, source, global policy) over the bounded tree universe "
                      "(MergeUniverses.tla), each replayed with the source as map, reflect.StructOf struct and *Config; "
